@@ -246,13 +246,90 @@ Theorem history_refuted :
   exists ev ops, assumptions_hold ev ops = true /\ c20_run_ok ev empty_st ops = false.
 Proof. exists g_ev, g_w1. split; vm_compute; reflexivity. Qed.
 
-(* each witness fails at a step that its trigger names *)
+(* each witness fails, and every offending chunk of every failing step is explained by the finding it is the witness of *)
 Theorem witness_triggers :
-  first_failure g_ev0 false empty_st g_w0 = Some (Some 0) /\
-  first_failure g_ev false empty_st g_w1 = Some (Some 1) /\
-  first_failure g_ev false empty_st g_w2 = Some (Some 2) /\
-  first_failure g_ev3 false empty_st g_w3 = Some (Some 3) /\
-  first_failure g_ev false empty_st g_w4 = Some (Some 4).
+  first_failure g_ev0 g_w0 = Some (Some 0) /\
+  first_failure g_ev g_w1 = Some (Some 1) /\
+  first_failure g_ev g_w2 = Some (Some 2) /\
+  first_failure g_ev3 g_w3 = Some (Some 3) /\
+  first_failure g_ev g_w4 = Some (Some 4).
+Proof. repeat split; vm_compute; reflexivity. Qed.
+
+(* the explanations are per chunk: the same failing steps with one more, unrelated, violation are NOT
+   classified.  g_w1x: the k=1 witness on a filer where a client also shares chunk 7 between two plain
+   files (outside the assumptions) and deletes one of them: chunk 7 is explained by nothing *)
+Definition g_w1x : list op :=
+  [Create qc (g_file 3 [g_c 7 0]) false; Create qd (g_file 4 [g_c 7 0]) false;
+   Create qa (g_file 1 [g_c 1 0; g_c 2 1]) false; Link qa qb 1; Delete qa false false true;
+   Delete qc false false true].
+Theorem unexplained_not_classified : first_failure g_ev g_w1x = Some None.
+Proof. vm_compute. reflexivity. Qed.
+
+(* ================= the failure list is exactly the failing steps ================= *)
+Lemma filter_nil_forall : forall {A} (f : A -> bool) l, filter f l = [] <-> forallb (fun x => negb (f x)) l = true.
+Proof.
+  induction l as [|x l IH]; simpl; [tauto|]. destruct (f x); simpl; [split; discriminate|exact IH].
+Qed.
+
+Lemma step_prop_offending : forall ev s o rb ra sched,
+  step_prop ev s o rb ra sched = true <->
+  live_ids ra sched = [] /\ leaked_ids (requests_deletion ev s o) rb ra sched = [].
+Proof.
+  intros. unfold step_prop, no_live_b, disjoint, live_ids, leaked_ids, all_garbage_b.
+  rewrite andb_true_iff, filter_nil_forall.
+  destruct (requests_deletion ev s o).
+  - rewrite filter_nil_forall.
+    assert (E : forallb (fun c => mem c ra || mem c sched) rb =
+                forallb (fun x => negb (negb (mem x ra) && negb (mem x sched))) rb).
+    { clear. induction rb as [|c rb IHrb]; simpl; [reflexivity|]. rewrite IHrb.
+      destruct (mem c ra), (mem c sched); reflexivity. }
+    rewrite E. tauto.
+  - tauto.
+Qed.
+
+Theorem failures_complete : forall ev ops taint s,
+  failures ev taint s ops = [] <-> c20_run_ok ev s ops = true.
+Proof.
+  induction ops as [|o ops IH]; intros taint s; simpl; [tauto|].
+  rewrite andb_true_iff, step_prop_offending, <- (IH (taint_of ev s o ++ taint)).
+  split.
+  - intro H. apply app_eq_nil in H. destruct H as [H1 H2]. apply app_eq_nil in H2. destruct H2 as [H2 H3].
+    apply map_eq_nil in H1. apply map_eq_nil in H2. auto.
+  - intros [[H1 H2] H3]. rewrite H1, H2, H3. reflexivity.
+Qed.
+
+(* no step of a history inside the hypothesis of the partial theorems has an offending chunk *)
+Theorem quiet_no_failures : forall ev ops,
+  c20_hist_quiet ev empty_st ops = true -> first_failure ev ops = None.
+Proof.
+  intros ev ops H. unfold first_failure.
+  assert (E : failures ev [] empty_st ops = []) by (apply failures_complete; now apply c20_history_quiet).
+  now rewrite E.
+Qed.
+
+(* a history is unclassified exactly when some offending chunk has no explanation *)
+Theorem first_failure_none : forall ev ops,
+  first_failure ev ops = None <-> c20_run_ok ev empty_st ops = true.
+Proof.
+  intros. unfold first_failure. rewrite <- (failures_complete ev ops [] empty_st).
+  destruct (failures ev [] empty_st ops); split; intro H; try reflexivity; discriminate.
+Qed.
+
+(* the mount's own discipline over a hard link (link, write through a name, unlink both) and an
+   UpdateEntry that wraps chunks into a manifest satisfy the property at every step, although they
+   are outside c20_quiet: no trigger is history-wide any more *)
+Definition g_mount : list op :=
+  [Create qd (mk_hentry true 493 9 9 9 [] 0 0%Z) false;
+   Create qa (g_file 1 [g_c 1 0; g_c 2 1]) false; Link qa (qd ++ qb) 1;
+   Write (qd ++ qb) [g_c 2 1; Chunk 4 0 10 9 false] 5 true; Unlink qa; Unlink (qd ++ qb)].
+Definition g_wrapu : list op :=
+  [Create qa (g_file 1 [g_c 1 0; g_c 2 1]) false; Update qa (g_file 1 [g_m 50 0 20; g_c 3 2]);
+   Delete qa false false true].
+Theorem clean_outside_quiet :
+  (assumptions_hold g_ev g_mount = true /\ c20_hist_quiet g_ev empty_st g_mount = false /\
+   first_failure g_ev g_mount = None) /\
+  (assumptions_hold g_ev0 g_wrapu = true /\ c20_hist_quiet g_ev0 empty_st g_wrapu = false /\
+   first_failure g_ev0 g_wrapu = None).
 Proof. repeat split; vm_compute; reflexivity. Qed.
 
 (* non-vacuity: overwrites with retained, covered and fresh chunks, an append, a rename onto an
